@@ -126,6 +126,8 @@ def documents(draw: Any, kind: str = 'function', fmt_family: str = 'markup', max
             fields.append({'tag': 'param', 'arg': p, 'words': c.words(draw(st.integers(1, 3))), 'type': c.words(1) if draw(st.booleans()) else None})
         if draw(st.booleans()):
             fields.append({'tag': 'return', 'arg': None, 'words': c.words(2), 'type': c.words(1) if draw(st.booleans()) else None})
+        if fmt_family == 'markup' and draw(st.integers(0, 2)) == 0:
+            fields.append({'tag': 'yield', 'arg': None, 'words': c.words(2), 'type': c.words(1) if draw(st.booleans()) else None})
         if draw(st.booleans()):
             fields.append({'tag': 'raise', 'arg': 'ValueError', 'words': c.words(2), 'type': None})
         if fmt_family == 'markup' and draw(st.booleans()):
@@ -149,6 +151,10 @@ def documents(draw: Any, kind: str = 'function', fmt_family: str = 'markup', max
             fields.append({'tag': tag, 'arg': None, 'words': c.words(2), 'type': None})
         if draw(st.integers(0, 4)) == 0:
             fields.append({'tag': 'unknown', 'arg': None, 'words': c.words(2), 'type': None, 'name': 'customtag'})
+    # the field that gives the type may be written before the field that gives the description
+    for x in fields:
+        if x.get('type') and fmt_family == 'markup' and draw(st.integers(0, 2)) == 0:
+            x['type_first'] = True
     return {'blocks': blocks, 'fields': fields, 'kind': kind}
 
 
@@ -302,8 +308,12 @@ def serialise(doc: Dict[str, Any], fmt: str) -> str:
             else:
                 lines.append(fl(tag, x['arg'], ' '.join(x['words'])))
             if x.get('type'):
-                ttag = {'param': 'type', 'keyword': 'type', 'return': 'rtype', 'ivar': 'type', 'cvar': 'type'}[x['tag']]
-                lines.append(fl(ttag, x['arg'] if ttag == 'type' else None, ' '.join(x['type'])))
+                ttag = {'param': 'type', 'keyword': 'type', 'return': 'rtype', 'ivar': 'type', 'cvar': 'type', 'yield': 'ytype'}[x['tag']]
+                tline = fl(ttag, x['arg'] if ttag == 'type' else None, ' '.join(x['type']))
+                if x.get('type_first') and not x.get('lit'):
+                    lines.insert(len(lines) - 1, tline)
+                else:
+                    lines.append(tline)
     else:
         groups: List[Tuple[str, List[Dict[str, Any]]]] = []
         for title, tags in (('Args' if fmt == 'google' else 'Parameters', ('param',)), ('Attributes', ('ivar',)),
